@@ -16,8 +16,8 @@ EXTENDS Tp21Core, Mon21, Json, IOUtils
 
 Batch == JsonDeserialize(IOEnv.TRACE_FILE)
 
-VARIABLES tid, l, ns, pc, pend, dm, bm, bad
-vars == <<tid, l, ns, pc, pend, dm, bm, bad>>
+VARIABLES tid, l, ns, pc, pend, dm, bm, silent, bad
+vars == <<tid, l, ns, pc, pend, dm, bm, silent, bad>>
 
 Tr == Batch[tid]
 Ev == Tr.ev
@@ -32,6 +32,7 @@ Init ==
     /\ pend = [n \in DOMAIN Batch[tid].cfg |-> <<>>]
     /\ dm = DmInit
     /\ bm = BmInit
+    /\ silent = {}
     /\ bad = {}
 
 Has2(e, f) == f \in DOMAIN e
@@ -62,7 +63,7 @@ Apply(e) ==
            IN IF Has2(e, "exc") THEN Fail("api.send_pgn raised")
               ELSE IF e.ret # r.ret THEN Fail("api.send_pgn return value")
               ELSE S([ns EXCEPT ![n] = r.ns], pc, [pend EXCEPT ![n] = r.out \o @],
-                     IF r.ret THEN DmAccept(dm, n, a) ELSE dm, bm, {})
+                     IF r.ret THEN DmAccept(dm, n, a) ELSE DmRefuse(dm), bm, {})
       [] e.ev = "tx" ->
            IF pend[n] # <<>>
            THEN IF MatchTx(Head(pend[n]), e)
@@ -131,28 +132,36 @@ Apply(e) ==
            ELSE S(ns, pc, pend, dm, bm, {})
       [] e.ev = "jobdead" -> Fail("job thread died")
       [] e.ev = "spin" -> Fail("job thread busy-spins")
-      [] e.ev \in {"lost", "silence", "token", "note"} -> S(ns, pc, pend, dm, bm, {})
+      [] e.ev \in {"lost", "silence", "token", "note", "end"} -> S(ns, pc, pend, dm, bm, {})
       [] OTHER -> Fail("unknown event")
+
+\* C06/C07: at the time of every event, no live stack still holds a session whose last activity is
+\* older than the standard's longest time-out (plus the wake-up latency of the job thread)
+SessionsOf(x) == {x.snd[i] : i \in 1..Len(x.snd)} \cup {x.rcv[i] : i \in 1..Len(x.rcv)}
+Overdue(t) == \E n \in Nodes \ silent : \E b \in SessionsOf(ns[n]) : t - b.act > T2 + WakeLat + Tr.expect.slack
 
 Done == l > Len(Ev)
 \* end-of-trace obligations
 Final ==
     IF \E n \in Nodes : pend[n] # <<>> THEN {"predicted output never happened"}
     ELSE DmFinal(dm, Tr) \cup BmFinal(bm, Tr) \cup
-         (IF Tr.expect.idle /\ \E n \in Nodes : ns[n].snd # <<>> \/ ns[n].rcv # <<>>
+         (IF Tr.expect.idle /\ \E n \in Nodes \ silent : ns[n].snd # <<>> \/ ns[n].rcv # <<>>
           THEN {"sessions left open at the end"} ELSE {})
 
 Step ==
     /\ bad = {} /\ ~Done
-    /\ LET r == Apply(Ev[l]) IN
+    /\ LET r0 == Apply(Ev[l])
+           r == IF r0.bad = {} /\ Overdue(Ev[l].t)
+                THEN [r0 EXCEPT !.bad = {"session not given up within the standard's time-out"}] ELSE r0 IN
        /\ ns' = r.ns /\ pc' = r.pc /\ pend' = r.pend /\ dm' = r.dm /\ bm' = r.bm
        /\ bad' = IF r.bad = {} /\ l = Len(Ev) THEN
-                    (IF \E n \in Nodes : r.pend[n] # <<>> THEN {"predicted output never happened"}
+                    (IF \E n \in Nodes \ silent : r.pend[n] # <<>> THEN {"predicted output never happened"}
                      ELSE DmFinal(r.dm, Tr) \cup BmFinal(r.bm, Tr) \cup
-                          (IF Tr.expect.idle /\ \E n \in Nodes : r.ns[n].snd # <<>> \/ r.ns[n].rcv # <<>>
+                          (IF Tr.expect.idle /\ \E n \in Nodes \ silent : r.ns[n].snd # <<>> \/ r.ns[n].rcv # <<>>
                            THEN {"sessions left open at the end"} ELSE {}))
                  ELSE r.bad
        /\ l' = IF r.bad = {} THEN l + 1 ELSE l
+    /\ silent' = IF Ev[l].ev = "silence" THEN silent \cup {Ev[l].node} ELSE silent
     /\ UNCHANGED tid
 
 Spec == Init /\ [][Step]_vars
